@@ -19,7 +19,7 @@ affine law).
 namespace MidnightZK.C06
 open Lean.Grind
 
-variable {F : Type} [Field F]
+variable {F : Type} [Lean.Grind.Field F]
 
 /-! ## Generated constants -/
 
